@@ -9,6 +9,8 @@ mod connection;
 #[cfg(test)]
 pub(crate) use connection::HostConnectionConfig;
 pub(crate) use connection::open_connection;
+#[cfg(scylla_verif)]
+pub(crate) use connection::verif as connection_verif;
 
 pub(crate) use connection::{Connection, ConnectionConfig, TcpSocketOptions, VerifiedKeyspaceName};
 
